@@ -263,3 +263,15 @@ mod tests {
         });
     }
 }
+
+#[cfg(feature = "verif-hooks")]
+impl State {
+    /// (Verification hook) Creates a detached `State` reporting the given number of allocated bytes.
+    #[inline]
+    #[allow(dead_code)] // Only used with auto-collect
+    pub(crate) fn verif_with_allocated_bytes(allocated_bytes: usize) -> State {
+        let state = State::new();
+        state.allocated_bytes.set(allocated_bytes);
+        state
+    }
+}
